@@ -1,0 +1,9 @@
+//go:build verif
+
+package file
+
+import "time"
+
+func verifSleepMs(n int) {
+	time.Sleep(time.Duration(n) * time.Millisecond)
+}
